@@ -68,6 +68,9 @@ def _run_once(case, minimize, negate):
         evals.append([_key(x), v])
         return v
     n = case.get("n", 4)
+    # a progress callback that asks to stop: the early return must still hand back the best candidate seen
+    stop_at = case.get("stop_at")
+    pk = {"on_progress": (lambda p: p.iteration >= stop_at), "progress_interval": case.get("progress_interval", 1)} if stop_at else {}
     try:
         if s in ("anneal", "tabu_search", "lns", "alns", "evolve"):
             init = tuple(case["init"])
@@ -77,7 +80,7 @@ def _run_once(case, minimize, negate):
                 i = rng.randrange(len(sol))
                 return sol[:i] + ((sol[i] + rng.choice([1, -1])) % 4,) + sol[i + 1:]
             if s == "anneal":
-                r = solvor.anneal(init, proxy, lambda sol: flip(sol, nrng), minimize=minimize, temperature=case.get("temperature", 10.0),
+                r = solvor.anneal(init, proxy, lambda sol: flip(sol, nrng), minimize=minimize, **pk, temperature=case.get("temperature", 10.0),
                                   cooling=case.get("cooling", 0.95), max_iter=case["max_iter"], seed=seed)
             elif s == "tabu_search":
                 def nbrs(sol):
@@ -86,7 +89,7 @@ def _run_once(case, minimize, negate):
                         for d in (1, -1):
                             out.append(((i, d), sol[:i] + ((sol[i] + d) % 4,) + sol[i + 1:]))
                     return out
-                r = solvor.tabu_search(init, proxy, nbrs, minimize=minimize, cooldown=case.get("cooldown", 3), max_iter=case["max_iter"],
+                r = solvor.tabu_search(init, proxy, nbrs, minimize=minimize, **pk, cooldown=case.get("cooldown", 3), max_iter=case["max_iter"],
                                        max_no_improve=case.get("max_no_improve", 20), seed=seed)
             elif s in ("lns", "alns"):
                 def destroy(sol, rng):
@@ -109,10 +112,10 @@ def _run_once(case, minimize, negate):
                            "cb:worse_only": lambda cur, new, it, rng: new >= cur,
                            "cb:every_third": lambda cur, new, it, rng: it % 3 == 0}[acc]
                 if s == "lns":
-                    r = solvor.lns(init, proxy, destroy, repair, minimize=minimize, accept=acc, max_iter=case["max_iter"],
+                    r = solvor.lns(init, proxy, destroy, repair, minimize=minimize, **pk, accept=acc, max_iter=case["max_iter"],
                                    max_no_improve=case.get("max_no_improve", 30), seed=seed, start_temp=case.get("temperature", 5.0))
                 else:
-                    r = solvor.alns(init, proxy, [destroy, destroy2], [repair, repair0], minimize=minimize, accept=acc, max_iter=case["max_iter"],
+                    r = solvor.alns(init, proxy, [destroy, destroy2], [repair, repair0], minimize=minimize, **pk, accept=acc, max_iter=case["max_iter"],
                                     max_no_improve=case.get("max_no_improve", 30), seed=seed, start_temp=case.get("temperature", 5.0),
                                     segment_size=case.get("segment_size", 5))
             else:
@@ -123,7 +126,7 @@ def _run_once(case, minimize, negate):
                 def cross(a, b):
                     k = nrng.randrange(1, len(a)) if len(a) > 1 else 0
                     return a[:k] + b[k:]
-                r = solvor.evolve(proxy, pop, cross, lambda sol: flip(sol, nrng), minimize=minimize, elite_size=case.get("elite", 2),
+                r = solvor.evolve(proxy, pop, cross, lambda sol: flip(sol, nrng), minimize=minimize, **pk, elite_size=case.get("elite", 2),
                                   mutation_rate=case.get("mutation_rate", 0.3), max_iter=case["max_iter"], seed=seed,
                                   adaptive_mutation=case.get("adaptive", False))
             sol = r.solution
@@ -132,12 +135,12 @@ def _run_once(case, minimize, negate):
             bounds = [tuple(b) for b in case["bounds"]]
             x0 = list(case["x0"])
             if s == "differential_evolution":
-                r = solvor.differential_evolution(proxy, bounds, minimize=minimize, population_size=case.get("pop", 6), strategy=case.get("strategy", "rand/1"),
+                r = solvor.differential_evolution(proxy, bounds, minimize=minimize, **pk, population_size=case.get("pop", 6), strategy=case.get("strategy", "rand/1"),
                                                   max_iter=case["max_iter"], seed=seed)
             elif s == "particle_swarm":
-                r = solvor.particle_swarm(proxy, bounds, minimize=minimize, n_particles=case.get("pop", 6), max_iter=case["max_iter"], seed=seed)
+                r = solvor.particle_swarm(proxy, bounds, minimize=minimize, **pk, n_particles=case.get("pop", 6), max_iter=case["max_iter"], seed=seed)
             elif s == "nelder_mead":
-                r = solvor.nelder_mead(proxy, x0, minimize=minimize, max_iter=case["max_iter"], adaptive=case.get("adaptive", False), initial_step=case.get("step", 0.5))
+                r = solvor.nelder_mead(proxy, x0, minimize=minimize, **pk, max_iter=case["max_iter"], adaptive=case.get("adaptive", False), initial_step=case.get("step", 0.5))
             elif s == "bayesian_opt":
                 r = solvor.bayesian_opt(proxy, bounds, minimize=minimize, max_iter=case["max_iter"], n_initial=case.get("n_initial", 3), seed=seed,
                                         acquisition=case.get("acquisition", "ei"))
@@ -229,6 +232,12 @@ def gen(rng, solver=None):
             case.update(max_iter=rng.choice([1, 3, 6]), n_initial=rng.choice([2, 4]), acquisition=rng.choice(["ei", "ucb"]))
         if s == "nelder_mead":
             case.update(adaptive=rng.random() < 0.3, step=rng.choice([0.05, 0.5, 1.0]))
+    if s not in ("bayesian_opt", "powell", "bfgs", "lbfgs") and rng.random() < (0.6 if s == "evolve" else 0.25):
+        case["stop_at"] = rng.choice([1, 1, 2, 3, 5, 8])
+        case["progress_interval"] = rng.choice([1, 1, 2])
+        case["max_iter"] = max(case["max_iter"], rng.choice([4, 15, 30]))
+        if s == "evolve" and rng.random() < 0.7:
+            case["elite"] = 0             # no elitism: a generation can lose the best individual seen so far
     if case["family"] != "quad" and s != "bayesian_opt" and rng.random() < 0.2:
         case["fscale"] = rng.choice([2.0 ** -43, 2.0 ** -43, 2.0 ** -60, 2.0 ** 40])     # improving steps far below 1e-12, or huge
     return case
